@@ -120,7 +120,7 @@ _REPLAY_INDEX = None
 def _worker_run(item):
     idx, case = item
     num = _REPLAY_INDEX[idx] if _REPLAY_INDEX and idx < len(_REPLAY_INDEX) else idx      # its number in the original run
-    limit = getattr(_PROP, 'CASE_TIMEOUT', 120)
+    limit = getattr(_PROP, 'CASE_TIMEOUT', 300)
     signal.signal(signal.SIGALRM, _alarm)
     signal.setitimer(signal.ITIMER_REAL, limit)
     # every PROCESS_EVERY-th case of a check that opts in runs the command line as a REAL process, in one of
